@@ -550,6 +550,7 @@ pub fn compare_state(l: &Locale, m: &Loc) -> Vec<Fail> {
     if s != m.canon() {
         out.push(fail("to_string-vs-model", format!("to_string() = {:?}, model canonical form {:?}", s, m.canon())));
     }
+    crate::stream::hostile_neighbour(s.as_bytes());
     match guard(|| s.parse::<Locale>()) {
         Err(pn) => out.push(fail("panic", pn)),
         Ok(Err(e)) => out.push(fail("reparse", format!("{:?} does not parse back: {:?}", s, e))),
